@@ -165,7 +165,20 @@ def check_C08(tier, seed):
         T["globals"][0]["ty"] = {"k": "rtarray", "e": T["globals"][0]["ty"]}
         T["globals"][0]["space"] = "storage_r"
         rc.append({"id": "tower-%d-rt" % l, "family": "structs-nesting-depth", "S": T, "opts": F.opts(enc=True)})
-    drive_and_judge(rep, "C08", rc, "roles-random", keep)
+    # calls that end in a documented panic (runtime-sized array without encase) between the other calls of the same thread:
+    # whatever the unwinding leaves behind must not reach the next module
+    F32 = {"k": "scalar", "s": "f32"}
+    P = {"structs": [{"name": "PA", "members": [{"name": "x", "ty": F32}]}, {"name": "PB", "members": [{"name": "a", "ty": {"k": "struct", "name": "PA"}}, {"name": "n", "ty": {"k": "scalar", "s": "u32"}}]},
+                     {"name": "PRt", "members": [{"name": "count", "ty": {"k": "scalar", "s": "u32"}}, {"name": "items", "ty": {"k": "rtarray", "e": {"k": "struct", "name": "PB"}}}]}],
+         "globals": [{"name": "p_rt", "space": "storage_r", "group": "0", "binding": "0", "ty": {"k": "struct", "name": "PRt"}}, {"name": "p_u", "space": "uniform", "group": "0", "binding": "1", "ty": {"k": "struct", "name": "PB"}},
+                     {"name": "p_v", "space": "uniform", "group": "0", "binding": "2", "ty": F.VEC4}],
+         "consts": [], "overrides": [], "functions": [], "entries": [{"name": "main", "stage": "compute", "params": [], "wg": ["1"], "body": [{"k": "access", "g": "p_u", "how": "load"}]}]}
+    rc2 = []
+    for i, c in enumerate(rc):
+        if i % 6 == 0:
+            rc2.append({"id": "panic-before-%05d" % i, "family": "structs-after-a-panic", "S": P, "opts": (F.opts(), F.opts(bmh=True), F.opts(bmv=True, mv="glam"))[(i // 6) % 3]})
+        rc2.append(c)
+    drive_and_judge(rep, "C08", rc2, "roles-random", keep)
     return finish(rep)
 
 
